@@ -2,6 +2,7 @@ import RulioModel.LocInv
 import RulioProofs.LocGuards
 import RulioProofs.LocState
 import RulioProofs.LocLife
+import RulioProofs.ComposeExamples
 
 open LocP
 
@@ -222,3 +223,127 @@ example : ruleDisabled c10Example.st.facts "r1" 7 = true ∧ ruleDisabled c10Exa
     FreshAt c10Example.st (genPropId "r1" "disabled") 7 := ⟨by decide, by decide, freshAt_of_b (by decide)⟩
 example : whenOf [("rule", .obj [("when", .obj [("pattern", .obj [("wants", .str "?x")])]),
                                  ("action", .obj [("code", .str "1")])])] = some [("wants", .str "?x")] := by rfl
+
+/-! ## the lifecycle clause over all histories (composition with C01 / C05)
+
+`fires_iff_live_enabled_partial` above is about the specification only.  Here the specification is tied to what an
+`event` op does (`locProcessEvent`: `searchRules` → `RuleEnabled` per candidate → `processEvent`, as the driver
+composes them; one location, no parents) after **any history of Location operations** (`LocOp`: `AddRule` — also
+under an id in use, i.e. replace —, `RemRule`, `EnableRule`, `AddFact` — also under the id of a rule —, `RemFact`,
+`GetFact`, `SearchFacts`, `SearchRules`, `Clear`; whatever they answer), for both state kinds.  Well-formedness and
+reachability of the state are derived from the history (`stGood_history`).  Hypotheses that remain
+(see `dispatch_exact_local`, Props/C01): nothing stored is expired at the time of the event (`NoneExpired`; expiry
+itself is C07's), stored rule bodies have the documented shape (`RuleShapes`), for the indexed kind the stored `when`
+patterns and the event are in the fragments, and the event's work tree carries no error (`dispatch_no_error` says when).
+Lemmas: `RulioProofs/Compose*.lean`. -/
+
+/-- **`fires_iff_live_enabled`.**  After any history of Location operations on a fresh location of either kind, for
+an event whose work tree carries no error: the location is unchanged by the event, every rule node `(id, bindings)`
+of the tree is *live and enabled* (`LiveEnabled`: `id` is currently stored as a non-scheduled rule, unexpired, its
+current `when` matches the event with exactly these bindings, and `ruleDisabled` is false for it — which is what
+`RuleEnabled` answers, `flag_is_property_fact`), and if the walk was not aborted the rule nodes are **exactly** the
+live and enabled rules.  A removed, replaced, overwritten or disabled rule never fires on the strength of what it
+was before; a live, enabled, matching rule always does. -/
+theorem fires_iff_live_enabled (srch : Srch) (name : String) (k : Kind) (ops : List LocOp) (c : Ctx) (ev : Obj)
+    (now : Int) (l l' : Loc) (t : Tree) (hl : l = (Loc.fresh name k).run ops)
+    (hne : _root_.NoneExpired l.st now) (hshape : RuleShapes l.st)
+    (hfrag : l.st.kind = .indexed → WhenFrag l.st ∧ EvOK ev = true ∧ dataOK (.obj ev) = true)
+    (hrun : locProcessEvent srch c ev now l = (l', t)) (herr : t.err = none) :
+    l' = l ∧
+    (∀ id bss, (id, bss) ∈ t.fired → LiveEnabled l.st.facts ev now id bss) ∧
+    (t.aborted = false → ∀ id bss, (id, bss) ∈ t.fired ↔ LiveEnabled l.st.facts ev now id bss) := by
+  have hgood : StGood l.st := hl ▸ stGood_history name k ops
+  obtain ⟨h1, out, hout, _, hsub, hperm⟩ := locProcessEvent_exact srch hgood.1 hne hshape
+    (fun hk => ⟨hgood.2 hk, hfrag hk⟩) hrun herr
+  refine ⟨h1, fun id bss hmem => (specFires_mem hout id bss).1 (hsub _ hmem), fun hab id bss => ?_⟩
+  rw [← specFires_mem hout id bss]
+  exact (hperm hab).mem_iff
+
+/-- **removed, overwritten and disabled rules never fire** (no assumption on how the walk ended): after any
+history, an id under which no fact is stored, an id whose stored fact is not a non-scheduled rule, and an id whose
+disabled flag is set have no rule node. -/
+theorem dead_rules_never_fire (srch : Srch) (name : String) (k : Kind) (ops : List LocOp) (c : Ctx) (ev : Obj)
+    (now : Int) (l l' : Loc) (t : Tree) (hl : l = (Loc.fresh name k).run ops)
+    (hne : _root_.NoneExpired l.st now) (hshape : RuleShapes l.st)
+    (hfrag : l.st.kind = .indexed → WhenFrag l.st ∧ EvOK ev = true ∧ dataOK (.obj ev) = true)
+    (hrun : locProcessEvent srch c ev now l = (l', t)) (herr : t.err = none) (id : String) :
+    (amGet l.st.facts id = none → ∀ bss, (id, bss) ∉ t.fired) ∧
+    ((∀ f, (id, f) ∈ l.st.facts → whenOf f = none) → ∀ bss, (id, bss) ∉ t.fired) ∧
+    (ruleDisabled l.st.facts id now = true → ∀ bss, (id, bss) ∉ t.fired) := by
+  obtain ⟨_, hlive, _⟩ := fires_iff_live_enabled srch name k ops c ev now l l' t hl hne hshape hfrag hrun herr
+  refine ⟨fun hnone bss hmem => ?_, fun hnr bss hmem => ?_, fun hdis bss hmem => ?_⟩
+  · obtain ⟨f, _, hf, _⟩ := hlive id bss hmem
+    exact not_stored_of_amGet_none hnone f hf
+  · obtain ⟨f, p, hf, hw, _⟩ := hlive id bss hmem
+    rw [hnr f hf] at hw; cases hw
+  · obtain ⟨_, _, _, _, _, _, _, hen⟩ := hlive id bss hmem
+    rw [hdis] at hen; cases hen
+
+/-- **disable suppresses, remove removes** — the two lifecycle operations composed with the event: if the history
+ends with a successful `EnableRule id false`, or with a successful `RemRule id` (flag unexpired, as flags always
+are), then `id` has no rule node in any later error-free event on that state, at any time, whatever `id`'s rule
+matches.  (`flag_is_property_fact`, `flag_dies_with_rule` give the state after the operation; the flag fact carries
+no expiry, so it disables at every later time.) -/
+theorem disable_and_remove_suppress (srch : Srch) (name : String) (k : Kind) (ops : List LocOp) (c c' : Ctx)
+    (ev : Obj) (t1 now : Int) (id : String) (l0 l l' : Loc) (t : Tree) (hl0 : l0 = (Loc.fresh name k).run ops)
+    (hop : locEnableRule c' id false t1 l0 = (l, .ok ()) ∨
+      (∃ r, locRemRule c' id t1 l0 = (l, .ok r) ∧ GuardFresh l0.st t1 ∧ FreshAt l0.st (genPropId id "disabled") t1))
+    (hne : _root_.NoneExpired l.st now) (hshape : RuleShapes l.st)
+    (hfrag : l.st.kind = .indexed → WhenFrag l.st ∧ EvOK ev = true ∧ dataOK (.obj ev) = true)
+    (hrun : locProcessEvent srch c ev now l = (l', t)) (herr : t.err = none) :
+    ∀ bss, (id, bss) ∉ t.fired := by
+  rcases hop with hop | ⟨r, hop, hgf, hfl⟩
+  · have hl : l = (Loc.fresh name k).run (ops ++ [LocOp.enableRule c' id false t1]) := by
+      simp only [Loc.run, List.foldl_append, List.foldl_cons, List.foldl_nil, LocOp.step]
+      rw [show List.foldl LocOp.step (Loc.fresh name k) ops = l0 from hl0.symm, hop]
+    have hflag := ((flag_is_property_fact c' id t1 l0 l).1 hop).1
+    exact (dead_rules_never_fire srch name k _ c ev now l l' t hl hne hshape hfrag hrun herr id).2.2
+      (ruleDisabled_of_flag hflag now)
+  · have hl : l = (Loc.fresh name k).run (ops ++ [LocOp.remRule c' id t1]) := by
+      simp only [Loc.run, List.foldl_append, List.foldl_cons, List.foldl_nil, LocOp.step]
+      rw [show List.foldl LocOp.step (Loc.fresh name k) ops = l0 from hl0.symm, hop]
+    have hgone := (flag_dies_with_rule c' id t1 l0 l r hgf hfl hop).2.1
+    exact (dead_rules_never_fire srch name k _ c ev now l l' t hl hne hshape hfrag hrun herr id).1 hgone
+
+/-- **… until it is enabled again.**  If the history ends with a successful `EnableRule id true`, the flag is gone
+(at every later time), so in a later error-free, non-aborted event `id` fires iff it is stored as a non-scheduled,
+unexpired rule whose current `when` matches — the disabled clause has dropped out. -/
+theorem enable_restores (srch : Srch) (name : String) (k : Kind) (ops : List LocOp) (c c' : Ctx)
+    (ev : Obj) (t1 now : Int) (id : String) (l0 l l' : Loc) (t : Tree) (hl0 : l0 = (Loc.fresh name k).run ops)
+    (hop : locEnableRule c' id true t1 l0 = (l, .ok ()))
+    (hne : _root_.NoneExpired l.st now) (hshape : RuleShapes l.st)
+    (hfrag : l.st.kind = .indexed → WhenFrag l.st ∧ EvOK ev = true ∧ dataOK (.obj ev) = true)
+    (hrun : locProcessEvent srch c ev now l = (l', t)) (herr : t.err = none) (hab : t.aborted = false) :
+    ∀ bss, (id, bss) ∈ t.fired ↔
+      ∃ f p, (id, f) ∈ l.st.facts ∧ whenOf f = some p ∧ unexpired f now = true ∧
+        matchesJ (.obj p) (.obj ev) = .ok bss ∧ bss ≠ [] := by
+  have hl : l = (Loc.fresh name k).run (ops ++ [LocOp.enableRule c' id true t1]) := by
+    simp only [Loc.run, List.foldl_append, List.foldl_cons, List.foldl_nil, LocOp.step]
+    rw [show List.foldl LocOp.step (Loc.fresh name k) ops = l0 from hl0.symm, hop]
+  have hnone := ((flag_is_property_fact c' id t1 l0 l).2.1 hop).1
+  have hen : ruleDisabled l.st.facts id now = false := by simp [ruleDisabled, hnone]
+  obtain ⟨_, _, hiff⟩ := fires_iff_live_enabled srch name k _ c ev now l l' t hl hne hshape hfrag hrun herr
+  intro bss
+  rw [hiff hab id bss]
+  unfold LiveEnabled
+  constructor
+  · rintro ⟨f, p, h1, h2, h3, h4, h5, _⟩; exact ⟨f, p, h1, h2, h3, h4, h5⟩
+  · rintro ⟨f, p, h1, h2, h3, h4, h5⟩; exact ⟨f, p, h1, h2, h3, h4, h5, hen⟩
+
+/-- non-vacuity: on the history `ComposeEx.cxLoc k` (either kind: `r1` replaced, `r2` disabled, `r3` overwritten by a
+plain fact) all hypotheses of `fires_iff_live_enabled` hold for the event `{"wants":"tacos","likes":["chips","tacos"]}`
+at time 7 and the event reports no error (`dispatch_no_error`); hence `r2` (disabled although its `when` matches) and
+`r3` (no longer a rule) have no rule node -/
+example (k : Kind) (srch : Srch) :
+    (locProcessEvent srch {} ComposeEx.cxEv 7 (ComposeEx.cxLoc k)).2.err = none ∧
+    (∀ bss, ("r2", bss) ∉ (locProcessEvent srch {} ComposeEx.cxEv 7 (ComposeEx.cxLoc k)).2.fired) ∧
+    (∀ bss, ("r3", bss) ∉ (locProcessEvent srch {} ComposeEx.cxEv 7 (ComposeEx.cxLoc k)).2.fired) := by
+  have h1 := locProcessEvent_no_error srch (c := {}) (ev := ComposeEx.cxEv) (now := 7) (l := ComposeEx.cxLoc k)
+    (ComposeEx.cx_good k).1 (ComposeEx.cx_noneExpired k) (ComposeEx.cx_shapes k) (ComposeEx.cx_idx k)
+    (ComposeEx.cx_valid k) (ComposeEx.cx_maps k) (ComposeEx.cx_guards k) (fun _ => ComposeEx.cx_spec k)
+  generalize hrun : locProcessEvent srch {} ComposeEx.cxEv 7 (ComposeEx.cxLoc k) = res at h1 ⊢
+  obtain ⟨l', t⟩ := res
+  have hd := dead_rules_never_fire srch "home" k ComposeEx.cxOps {} ComposeEx.cxEv 7 (ComposeEx.cxLoc k) l' t rfl
+    (ComposeEx.cx_noneExpired k) (ComposeEx.cx_shapes k)
+    (fun hk => ⟨ComposeEx.cx_whenFrag k, ComposeEx.cx_ev.1, ComposeEx.cx_ev.2⟩) hrun h1.2
+  exact ⟨h1.2, (hd "r2").2.2 (ComposeEx.cx_disabled k).1, (hd "r3").2.1 (ComposeEx.cx_r3 k)⟩
